@@ -1,6 +1,7 @@
 import EgVerif.Proofs.LoadBalance
 import EgVerif.Gen.FactsC04
 import EgVerif.Proofs.LoadBalanceIR
+import EgVerif.Proofs.LoadBalanceSwap
 /-!
 # C04 — load balancers pick only live pool members, fairly / stickily, never failing
 
@@ -515,6 +516,143 @@ example :
     afterReports sps [[⟨"a", ["v1"], 5⟩, ⟨"b", ["v1"], 5⟩], [⟨"a", ["v1"], 0⟩, ⟨"b", ["v1"], 5⟩]] =
       [⟨"a", 0, ["v1"]⟩, ⟨"b", 5, ["v1"]⟩] ∧
     choose ⟨.weightedRandom, [⟨"a", 0, ["v1"]⟩, ⟨"b", 5, ["v1"]⟩]⟩ { rnd := 0 } = .srv ⟨"b", 5, ["v1"]⟩ := by
+  decide
+
+/-! ### Audit repair (notes/AUDIT.md, C04 item 5): *which* generation a selection uses
+
+`swap_linearizable` above only places the balancer among all generations published at any time of the
+run, and `rr_fair_per_generation` speaks about counters only. The theorems below pin the generation
+and the server. Helper lemmas: `Proofs/LoadBalanceSwap.lean`. -/
+
+/-- **A selection uses the list that was current at its thread's latest load.** Split the run at any
+pick of thread `t` (`evs = pre ++ pick t x :: post`). If that pick yields an output `o` (it is then the
+element of `run … evs` right after the outputs of `pre`), thread `t` loaded in `pre`; with `pre1` the
+events before its **latest** load, `o.gen` is the number of lists published in `pre1` and `o.res` is
+`ChooseServer` of the balancer built from the last list published in `pre1` (the initial list if none),
+evaluated with the counter fetched from that balancer. A list published after the load — in `pre2` or
+`post` — cannot be the one used. -/
+theorem selection_uses_generation_at_last_load (policy : String) (ss0 : List Server) (pre post : List Ev)
+    (t : Nat) (x : Sel) (o : Out)
+    (h : (step (after (Pool.init policy ss0) pre) (.pick t x)).2 = some o) :
+    run (Pool.init policy ss0) (pre ++ .pick t x :: post) =
+      run (Pool.init policy ss0) pre ++ o :: run (after (Pool.init policy ss0) (pre ++ [.pick t x])) post ∧
+    ∃ pre1 pre2 ss, pre = pre1 ++ .load t :: pre2 ∧ NoLoad t pre2 ∧
+      o.thread = t ∧ o.gen = (stores pre1).length ∧
+      (ss0 :: stores pre1).getLast? = some ss ∧
+      o.res = choose (newLB policy ss) { x with counter := o.counter } := by
+  refine ⟨?_, pick_uses_generation_of_last_load policy ss0 pre t x o h⟩
+  have h1 : pre ++ Ev.pick t x :: post = (pre ++ [Ev.pick t x]) ++ post := by simp
+  rw [h1, run_append, run_append]
+  simp [run, h]
+
+/-- The generation's list as the judge indexes it: `(ss0 :: every list published in the run)[o.gen]`. -/
+theorem selection_list_index (policy : String) (ss0 : List Server) (pre post : List Ev)
+    (t : Nat) (x : Sel) (o : Out)
+    (h : (step (after (Pool.init policy ss0) pre) (.pick t x)).2 = some o) :
+    ∃ ss, (ss0 :: stores (pre ++ .pick t x :: post))[o.gen]? = some ss ∧
+      o.res = choose (newLB policy ss) { x with counter := o.counter } := by
+  obtain ⟨pre1, pre2, ss, hpre, _, _, hg, hlast, hres⟩ :=
+    pick_uses_generation_of_last_load policy ss0 pre t x o h
+  refine ⟨ss, ?_, hres⟩
+  have hst : stores (pre ++ Ev.pick t x :: post) = stores pre1 ++ (stores pre2 ++ stores post) := by
+    rw [hpre, stores_append, stores_append, stores_cons (Ev.load t) pre2, stores_cons (Ev.pick t x) post]
+    simp [stores]
+  rw [hst, hg, ← List.cons_append, List.getElem?_append_left (by simp)]
+  rw [List.getLast?_eq_getElem?] at hlast
+  simpa using hlast
+
+/-- **Acceptance lemma for the judge's `windowOK`** (`Driver/C04.lean`, mode `swap`): the harness reports
+for each selection the window `a … b` of generations that were current while it ran; the generation the
+model's selection uses (`o.gen`, fixed at the thread's load) lies in every window that contains it, and
+the url it returns (`none` for a nil server) comes from that generation's list — so `windowOK` accepts
+the model's own behaviour, for every policy, schedule and window around `o.gen`. -/
+theorem windowOK_of_run (policy : String) (ss0 : List Server) (pre post : List Ev)
+    (t : Nat) (x : Sel) (o : Out)
+    (h : (step (after (Pool.init policy ss0) pre) (.pick t x)).2 = some o)
+    (hnp : o.res ≠ .panic) (a b : Nat) (ha : a ≤ o.gen) (hb : o.gen ≤ b) :
+    windowOK ((ss0 :: stores (pre ++ .pick t x :: post)).map (fun l => l.map (·.url))) a b (resUrl o.res)
+      = true := by
+  obtain ⟨ss, hss, hres⟩ := selection_list_index policy ss0 pre post t x o h
+  refine windowOK_of_gen _ a b o.gen (ss.map (·.url)) _ ha hb (by rw [List.getElem?_map, hss]; rfl) ?_
+  cases hr : o.res with
+  | panic => exact absurd hr hnp
+  | nil =>
+    have : (newLB policy ss).servers = [] := (nil_iff_empty _ _).mp (hres ▸ hr)
+    simp only [resUrl]
+    simpa [newLB] using this
+  | srv s =>
+    have hm : s ∈ (newLB policy ss).servers := choose_mem _ _ (hres ▸ hr)
+    simp only [resUrl, List.contains_iff_mem, List.mem_map]
+    exact ⟨s, by simpa [newLB] using hm, rfl⟩
+
+/-- **Round robin per generation, on servers** (strengthens `rr_fair_per_generation`, which is about
+counters only and holds for every policy): under the round-robin policy every selection made on
+generation `g` returns the server at position `counter % n` of **that generation's list** — so, with
+`rr_fair_per_generation`, position `j` of generation `g`'s list is returned ⌊k/n⌋ or ⌈k/n⌉ times among the
+`k` selections made on `g`, whatever loads, picks on other generations and publications are interleaved. -/
+theorem rr_fair_per_generation_servers (policy : String) (hp : Policy.ofString policy = .roundRobin)
+    (ss0 : List Server) (evs : List Ev) (g : Nat)
+    (hk : (onGen g (run (Pool.init policy ss0) evs)).length < 9223372036854775808) :
+    ∀ o ∈ onGen g (run (Pool.init policy ss0) evs),
+      ∃ ss, (ss0 :: stores evs)[g]? = some ss ∧
+        (ss = [] → o.res = .nil) ∧
+        (∀ hn : 0 < ss.length, o.res = .srv (ss[o.counter % ss.length]'(Nat.mod_lt _ hn))) ∧
+        ∀ j, j < ss.length →
+          ((onGen g (run (Pool.init policy ss0) evs)).filter (fun o' => o'.counter % ss.length == j)).length
+            = rrCount (onGen g (run (Pool.init policy ss0) evs)).length ss.length j := by
+  intro o ho
+  have hmem : o ∈ run (Pool.init policy ss0) evs := (List.mem_filter.mp ho).1
+  have hgen : o.gen = g := by simpa using (List.mem_filter.mp ho).2
+  obtain ⟨lb, x, hlb, hres⟩ := run_out_gen evs (Pool.init policy ss0) o hmem
+  -- the balancer of generation g
+  have hl : (Pool.init policy ss0).gens.map Prod.fst ++ (stores evs).map (newLB policy)
+      = (ss0 :: stores evs).map (newLB policy) := by simp [Pool.init]
+  have hpol : (Pool.init policy ss0).policy = policy := rfl
+  rw [hpol, hl, List.getElem?_map, hgen] at hlb
+  cases hss : (ss0 :: stores evs)[g]? with
+  | none => rw [hss] at hlb; cases hlb
+  | some ss =>
+    rw [hss] at hlb
+    simp only [Option.map_some, Option.some.injEq] at hlb
+    have hlb' : lb = ⟨.roundRobin, ss⟩ := by rw [← hlb, newLB, hp]
+    -- the counter is below the number of selections on g
+    have hcnt : o.counter < (onGen g (run (Pool.init policy ss0) evs)).length := by
+      have hc := (rr_fair_per_generation policy ss0 evs g).1
+      have : o.counter ∈ (onGen g (run (Pool.init policy ss0) evs)).map (·.counter) :=
+        List.mem_map_of_mem ho
+      rw [hc] at this
+      have := List.mem_range'_1.mp this
+      omega
+    refine ⟨ss, rfl, ?_, ?_, ?_⟩
+    · intro he
+      rw [hres, hlb', he]; rfl
+    · intro hn
+      rw [hres, hlb']
+      exact rr_choose ss _ (by simpa using Nat.lt_trans hcnt hk) hn
+    · intro j hj
+      exact (rr_fair_per_generation policy ss0 evs g).2 ss.length j (by omega) hj
+
+/-- Non-vacuity and sharpness. Two generations, a selection that spans the swap (thread 0 loads before the
+publication and picks after it): it still returns a server of the **old** list; thread 1, which loads
+after the publication, gets the new list. -/
+private def sA : Server := ⟨"a", 1, []⟩
+private def sB : Server := ⟨"b", 1, []⟩
+private def sC : Server := ⟨"c", 1, []⟩
+private def evSwap : List Ev := [.load 0, .store [sC], .load 1, .pick 0 {}, .pick 1 {}, .pick 0 {}]
+
+example : (run (Pool.init "roundRobin" [sA, sB]) evSwap).map (fun o => (o.thread, o.gen, o.counter, o.res)) =
+    [(0, 0, 0, .srv sA), (1, 1, 0, .srv sC), (0, 0, 1, .srv sB)] := by decide
+example : (step (after (Pool.init "roundRobin" [sA, sB]) [.load 0, .store [sC], .load 1]) (.pick 0 {})).2
+    = some ⟨0, 0, 0, .srv sA⟩ := by decide
+/-- the window check is sharp: the spanning selection's server is *not* in generation 1 alone -/
+example : windowOK [["a", "b"], ["c"]] 0 1 (some "a") = true ∧ windowOK [["a", "b"], ["c"]] 1 1 (some "a") = false := by
+  decide
+/-- `rr_fair_per_generation_servers` is false without the policy hypothesis: under "random" (with the
+environment's `rnd = 0`) three selections on one generation all return position 0, while the counter-only
+statement `rr_fair_per_generation` still holds for that run. -/
+example : (run (Pool.init "random" [sA, sB]) [.load 0, .pick 0 {}, .pick 0 {}, .pick 0 {}]).map (·.res) =
+    [.srv sA, .srv sA, .srv sA] ∧
+    (run (Pool.init "random" [sA, sB]) [.load 0, .pick 0 {}, .pick 0 {}, .pick 0 {}]).map (·.counter) = [0, 1, 2] := by
   decide
 
 end EgVerif.C04
